@@ -229,6 +229,9 @@ struct Plan {
     /// the PDU that ends the session is queued before the last flush (it can share a TLS record with bitmaps)
     end_same_record: bool,
     gui_iterations: usize,
+    /// the receive thread is started right after Connector::connect returns, as mstsc-rs does: the demand-active and
+    /// the finalisation PDUs are the first things it has to read (they may share a TLS record with the licence PDU)
+    early_launch: bool,
 }
 
 struct Report {
@@ -265,8 +268,8 @@ fn scenario(ctxrc: SharedCtx, report: Rc<RefCell<Report>>) {
         let end = *ctx.pick("end_mode", &[EndMode::None, EndMode::Ultimatum, EndMode::CloseNotifyFin, EndMode::FinWithoutCloseNotify, EndMode::Rst, EndMode::UndecodableRdpError, EndMode::UndecodableIoError, EndMode::None]);
         let end_after = ctx.choose("end_after", n as u64 + 1) as usize;
         let end_inside = matches!(end, EndMode::CloseNotifyFin | EndMode::FinWithoutCloseNotify | EndMode::Rst) && ctx.chance("end_inside_pdu", 1, 4);
-        let plan = Plan { pdus, end, end_after: if end == EndMode::None { n } else { end_after }, end_inside, pause_every: 1 + ctx.choose("pause_every", 4), batch: if ctx.chance("big_batch", 1, 4) { 5 + ctx.choose("batch_big", 56) as usize } else { 1 + ctx.choose("batch", 4) as usize }, end_same_record: ctx.chance("end_in_same_record", 1, 2), gui_iterations: 40 + ctx.choose("gui_iterations", 200) as usize };
-        ctx.key_str(&format!("{:?}|{:?}|{}|{}|{:?}|{:?}", end, packing, plan.end_after.min(3), end_inside, net.read_mode, cfg.nla));
+        let plan = Plan { pdus, end, end_after: if end == EndMode::None { n } else { end_after }, end_inside, pause_every: 1 + ctx.choose("pause_every", 4), batch: if ctx.chance("big_batch", 1, 4) { 5 + ctx.choose("batch_big", 56) as usize } else { 1 + ctx.choose("batch", 4) as usize }, end_same_record: ctx.chance("end_in_same_record", 1, 2), gui_iterations: 40 + ctx.choose("gui_iterations", 200) as usize, early_launch: ctx.chance("early_launch", 1, 3) };
+        ctx.key_str(&format!("{:?}|{:?}|{}|{}|{:?}|{:?}|{}", end, packing, plan.end_after.min(3), end_inside, net.read_mode, cfg.nla, plan.early_launch));
         ctx.step_budget = 2_000_000;
         (cfg, params, net, packing, plan)
     };
@@ -301,8 +304,8 @@ fn scenario(ctxrc: SharedCtx, report: Rc<RefCell<Report>>) {
     };
     rdp::model::rnd::verif::install(None);
     let mut client = client;
-    // activation: the frames the server sends, one read each
-    for _ in 0..40 {
+    // activation: the frames the server sends, one read each (unless the receive thread is to do it)
+    for _ in 0..(if plan.early_launch { 0 } else { 40 }) {
         let need = { let s = world.server.borrow(); s.frames_sent > 6 + s.activations as usize * 0 && s.phase != Phase::Active };
         let pending = world.wire.borrow().s2c.len();
         if world.server.borrow().phase == Phase::Active {
@@ -316,16 +319,19 @@ fn scenario(ctxrc: SharedCtx, report: Rc<RefCell<Report>>) {
     }
     // drain the server's four finalisation PDUs
     let mut reads = 0;
-    while world.server.borrow().frames_sent > 6 + 1 + reads && reads < 8 {
+    while !plan.early_launch && world.server.borrow().frames_sent > 6 + 1 + reads && reads < 8 {
         if client.read(|_| {}).is_err() {
             break;
         }
         reads += 1;
     }
-    if world.server.borrow().phase != Phase::Active {
+    if !plan.early_launch && world.server.borrow().phase != Phase::Active {
         return fail(viol("c20/session-not-established", "activation", "server never reached Active".to_string()));
     }
-    ctxrc.borrow_mut().ev("drv", "session active; starting threads".to_string());
+    if plan.early_launch {
+        ctxrc.borrow_mut().probe("receive_thread_does_the_activation");
+    }
+    ctxrc.borrow_mut().ev("drv", if plan.early_launch { "connected; starting threads before the activation".to_string() } else { "session active; starting threads".to_string() });
 
     // ---- threads ----
     let rdp_client = Arc::new(Mutex::new(client));
@@ -337,6 +343,9 @@ fn scenario(ctxrc: SharedCtx, report: Rc<RefCell<Report>>) {
     };
     let driver_done = Arc::new(AtomicBool::new(false));
     let ended = Arc::new(AtomicBool::new(false));
+    let startup_stall = Arc::new(AtomicBool::new(false));
+    let ss = startup_stall.clone();
+    let early = plan.early_launch;
     let dd = driver_done.clone();
     let en = ended.clone();
     let plan_box = SendBox((plan.pdus.clone(), plan.end, plan.end_after, plan.end_inside, plan.pause_every, shared.clone(), plan.batch, plan.end_same_record));
@@ -344,6 +353,27 @@ fn scenario(ctxrc: SharedCtx, report: Rc<RefCell<Report>>) {
         let pb = plan_box;
         let (pdus, end, end_after, end_inside, pause_every, sh, batch, end_same_record) = (&pb.0 .0, pb.0 .1, pb.0 .2, pb.0 .3, pb.0 .4, pb.0 .5.clone(), pb.0 .6, pb.0 .7);
         let (lock, cv) = { let s = sh.borrow(); (s.lock.clone(), s.cv.clone()) };
+        if early {
+            // the server waits for the client's confirm-active and finalisation before it sends graphics; it is
+            // reactive, so whenever the receive thread sits in select() with nothing on the socket while the server
+            // is not active yet, nobody will ever move again
+            let mut spins = 0u32;
+            loop {
+                {
+                    let _g = lock.lock().unwrap();
+                    let s = sh.borrow();
+                    if s.world.server.borrow().phase == Phase::Active { break; }
+                    let raw_empty = s.world.wire.borrow().s2c.is_empty();
+                    if (s.rdp_waiting && raw_empty) || spins > 200_000 {
+                        ss.store(true, Ordering::SeqCst);
+                        dd.store(true, Ordering::SeqCst);
+                        return;
+                    }
+                }
+                spins += 1;
+                shuttle::thread::yield_now();
+            }
+        }
         for (k, (updates, _rects, long)) in pdus.iter().enumerate() {
             if k == end_after {
                 break;
@@ -452,10 +482,16 @@ fn scenario(ctxrc: SharedCtx, report: Rc<RefCell<Report>>) {
     // ---- oracles ----
     let sent_before_end: Vec<Rect> = plan.pdus.iter().take(plan.end_after).flat_map(|(_, r, _)| r.clone()).collect();
     let mut outcome: Option<Outcome> = None;
-    // (3) order / content of what was forwarded
-    if let Some((site, detail)) = prefix_mismatch(&received, &sent_before_end) {
-        outcome = Some(viol("c20/forwarding", &site, detail));
+    // (0) start-up: whatever Connector::connect left unread must be dispatched without further server traffic
+    if startup_stall.load(Ordering::SeqCst) {
+        let phase = format!("{:?}", world.server.borrow().phase);
+        outcome = Some(viol("c20/stall", &format!("start-up packing={:?}", packing), format!("connect() returned, the server has sent its demand-active and waits for the confirm-active (server phase {}); the receive thread waits in select() with the raw socket empty: what connect() left inside the TLS layer is never dispatched", phase)));
     }
+    let sent_before_end: Vec<Rect> = if startup_stall.load(Ordering::SeqCst) { Vec::new() } else { sent_before_end };
+    // (3) order / content of what was forwarded
+    if outcome.is_none() { if let Some((site, detail)) = prefix_mismatch(&received, &sent_before_end) {
+        outcome = Some(viol("c20/forwarding", &site, detail));
+    } }
     // (3b) an in-band end (ultimatum, undecodable PDU, orderly or abrupt FIN) comes after the bitmaps on an ordered
     // stream: once the thread has stopped, every rectangle sent before the end must have been forwarded
     if outcome.is_none() && thread_gone && !plan.end_inside && matches!(plan.end, EndMode::Ultimatum | EndMode::UndecodableRdpError | EndMode::UndecodableIoError | EndMode::CloseNotifyFin | EndMode::FinWithoutCloseNotify) {
